@@ -1,3 +1,5 @@
 #!/bin/bash
-# warm the cache for the gosched-based checks: instrument + build + one quick run of the C15 harness (evidence untouched)
+# warm the cache for the gosched-based checks: instrument + build + one quick run of the C15 harness (evidence untouched),
+# which compiles the shared instrumented dependencies; the other harnesses build on first use
 cd "$(dirname "$0")/.." && C15_NO_EVIDENCE=1 checks/C15 quick >/dev/null 2>&1 || true
+checks/C14 build >/dev/null 2>&1 || true
